@@ -70,4 +70,12 @@ CHECKS = {
                       "key type come from one definition. Does not execute comparisons.",
         "level_note": "Trusted: lawfulness of std/chrono leaf impls and of #[derive] output; f64::total_cmp is a total order.",
     },
+    "C06": {
+        "modules": ["rules_c06"],
+        "explanation": 'Must-pass-through (edge dominance) on the MIR CFG of the three per-line entry points of ExecutionEngine: every call into the select/aggregate/join engines and every write through self is dominated by the true edge of the branch on Row::any_result() applied (provenance-checked) to the row that TableDefinition::extract returned for this line; who-may-call rule for extract; structural check of the admission predicate (any_result body; NOT NULL cut in extract clears the row on every path from the cut edge; NULL test applied after DEFAULT substitution); join file routed through the same entry; LIMIT counter written only in update_limit.',
+        "trusted": ["rustc nightly MIR + trait resolution", "dependencies behave as documented"],
+        "technique": 'static must-pass-through / edge-dominance analysis on MIR CFGs, who-may-call over the resolved call graph, path rule on the NOT NULL cut',
+        "level_text": 'Decides the structural clause: no path lets a non-admitted line reach engine state, and the admission predicate has the stated shape; the behavioural invariance under noise insertion follows given purity of extraction (C01). Exhaustive over all paths of the anchored functions.',
+        "level_note": 'Trusted: MIR of the nightly front end; extraction purity (C01.pure); pure-callee list in rules_c06.py.',
+    },
 }
